@@ -401,3 +401,77 @@ func VH_C10_observers_leave_no_lock() {
 	_ = plain.String()
 	vAssert(vLocksHeld() == 0, "C10.observe.after-release.no-lock-held")
 }
+
+// A promise chain that ends in null (outer promise fulfilled with an unresolved inner promise, inner
+// promise then resolved to null), the outer handle not touched in between: the outer handle is the
+// null client - calls give error answers and never reach a hook that has been shut down, AddRef gives
+// a null client, every hook is shut down exactly once, nothing panics or stays locked.
+func VH_C10_promise_chain_to_null() {
+	ph1, ph2 := &vHook{}, &vHook{}
+	c1, p1 := NewPromisedClient(ph1)
+	c2, p2 := NewPromisedClient(ph2)
+	p1.Fulfill(c2)
+	p2.Fulfill(nil)
+	vReach("resolved-to-null")
+	vAssert(ph1.shutdowns == 1 && ph2.shutdowns == 1, "C10.nullchain.promise-hooks-shut-down-once")
+	s1, s2 := ph1.sends, ph2.sends
+	ans, rel := c1.SendCall(context.Background(), Send{})
+	_, err := ans.Struct()
+	rel()
+	vAssert(err != nil, "C10.nullchain.call-on-null-client-is-an-error-answer")
+	vAssert(ph1.sends == s1 && ph2.sends == s2, "C10.nullchain.no-call-reaches-a-hook-after-its-shutdown")
+	c1.RecvCall(context.Background(), Recv{Returner: vReturner{}, ReleaseArgs: func() {}})
+	vAssert(ph1.recvs == 0 && ph2.recvs == 0, "C10.nullchain.no-received-call-reaches-a-hook-after-its-shutdown")
+	a := c1.AddRef()
+	vAssert(!a.IsValid() && !c1.IsValid(), "C10.nullchain.handles-are-null")
+	a.Release()
+	c1.Release()
+	c2.Release()
+	vAssert(ph1.shutdowns == 1 && ph2.shutdowns == 1, "C10.nullchain.no-second-shutdown")
+	vAssert(vLocksHeld() == 0, "C10.nullchain.no-lock-held")
+}
+
+type vGateBrandHook struct {
+	vHook
+	gate        chan struct{}
+	inBrand     bool
+	shutInBrand int
+}
+
+func (h *vGateBrandHook) Brand() Brand {
+	h.inBrand = true
+	<-h.gate
+	h.inBrand = false
+	return Brand{}
+}
+
+func (h *vGateBrandHook) Shutdown() {
+	if h.inBrand {
+		h.shutInBrand++
+	}
+	h.shutdowns++
+}
+
+// State() uses the hook (Brand) like a call does: the last Release while it is inside the hook
+// waits - the hook is never used across or after its Shutdown.
+func VH_C10_release_during_state() {
+	h := &vGateBrandHook{gate: make(chan struct{})}
+	c := NewClient(h)
+	stateDone, released := false, false
+	go func() {
+		_ = c.State()
+		stateDone = true
+	}()
+	vSettle()
+	vAssert(h.inBrand && !stateDone, "C10.state.observer-is-inside-the-hook")
+	go func() {
+		c.Release()
+		released = true
+	}()
+	vSettle()
+	vAssert(h.shutdowns == 0, "C10.state.no-shutdown-while-the-hook-is-in-use")
+	close(h.gate)
+	vSettle()
+	vAssert(stateDone && released, "C10.state.both-complete")
+	vAssert(h.shutdowns == 1 && h.shutInBrand == 0, "C10.state.shutdown-exactly-once-afterwards")
+}
